@@ -22,7 +22,7 @@ def ident_id(s):
         return FIXED_INV[s]
     m = re.fullmatch(r"v(\d+)", s)
     if not m:
-        raise ValueError(f"identifier outside the modelled name table: {s!r}")
+        raise Unmodelled(f"identifier outside the modelled name table: {s!r}")
     return int(m.group(1))
 
 
@@ -39,8 +39,38 @@ def name_str(n):
     return {2: "self", 3: "type", 4: "__SUBTLER_TYPE"}[t]
 
 
+_LEARNED = None
+_LEARNING = [False]
+
+
+def learned():
+    """the spelling of the names the real NameConverter invents (the temporaries' prefix, the name under which it expects
+    subtler_type), read off its output on two probe functions: the model's names are canonical, the implementation's are
+    recognised by the role they play in the rewritten call, so that a respelling is not a difference"""
+    global _LEARNED
+    if _LEARNED is None:
+        _LEARNED = {"tmp": "__TMP", "subtler": "__SUBTLER_TYPE"}
+        try:
+            for cx in (False, True):
+                anal = real_analysis(dict(method=False, pos=[(10, cx)], kwonly=[]))
+                st, new = run_name_converter(anal, RECURSE, None, "def m(v10):\n    return recurse(v10)\n")
+                calls = [n for n in ast.walk(new) if isinstance(n, ast.Call) and len(n.args) == 1 and isinstance(n.args[0], ast.NamedExpr)
+                         and isinstance(n.func, ast.Name)]
+                if len(calls) != 1:
+                    continue
+                m = re.fullmatch(r"(.*?)(\d+)_0", calls[0].args[0].target.id)
+                if m and not cx:
+                    _LEARNED["tmp"] = m.group(1)
+                if cx and calls[0].func.id != "type":
+                    _LEARNED["subtler"] = calls[0].func.id
+        except Exception:
+            pass
+    return _LEARNED
+
+
 def name_enc(s):
-    m = re.fullmatch(r"__TMP(\d+)_(.*)", s)
+    L = _LEARNED or {"tmp": "__TMP", "subtler": "__SUBTLER_TYPE"}
+    m = re.fullmatch(re.escape(L["tmp"]) + r"(\d+)_(.*)", s)
     if m:
         key = m.group(2)
         if key.isdigit():
@@ -54,7 +84,7 @@ def name_enc(s):
         return [2]
     if s == "type":
         return [3]
-    if s == "__SUBTLER_TYPE":
+    if s == L["subtler"]:
         return [4]
     for pre, t in (("___OVLD", 5), ("___MAP", 6), ("___CODE", 7)):
         if s.startswith(pre) and s[len(pre):].isdigit():
@@ -122,7 +152,7 @@ def body_src(body, indent="    "):
 
 
 # ---------------------------------------------------------------- ast -> encoding
-class Unmodelled(Exception):
+class Unmodelled(ValueError):
     pass
 
 
@@ -442,6 +472,9 @@ def run_name_converter(anal, rs, cs, fn_src, nid=0, code=0):
     Returns ("usage", None) or ("ok", new_tree)."""
     from ovld.recode import NameConverter
     from ovld.utils import UsageError
+    if _LEARNED is None and not _LEARNING[0]:
+        _LEARNING[0] = True
+        learned()
     tree = ast.parse(fn_src)
     nc = NameConverter(anal=anal, recurse_sym=ident(rs) if rs is not None else [], call_next_sym=ident(cs) if cs is not None else [],
                        ovld_mangled=f"___OVLD{nid}", map_mangled=f"___MAP{nid}", code_mangled=f"___CODE{code}")
